@@ -20,6 +20,7 @@ func init() {
 	Register(&PropDef{ID: "C18", Run: func(c *Ctx) { runSeq(c, seqC18) }, Config: seqConfig})
 	Register(&PropDef{ID: "C10", Run: func(c *Ctx) { runSeq(c, seqC10) }, Config: seqConfig})
 	Register(&PropDef{ID: "C13", Run: func(c *Ctx) { runSeq(c, seqC13) }, Config: seqConfig})
+	Register(&PropDef{ID: "C15b", Run: func(c *Ctx) { runSeq(c, seqC15) }, Config: seqConfig})
 }
 
 // seqConfig: sequential scenarios explore histories; the schedule of the
@@ -45,6 +46,7 @@ const (
 	seqC11
 	seqC20
 	seqC13
+	seqC15
 )
 
 var seqRoles = map[string]string{"alice": "admin", "bob": "user", "carol": "user", "dave": "guest", "": ""}
@@ -124,6 +126,10 @@ func genJoin(g *Rand, slot int, realm string, fl seqFlavour) SOp {
 	}
 	if fl == seqC20 {
 		op.Scribble = g.Chance(1, 3)
+	}
+	if fl == seqC15 {
+		op.Net = g.Pick("", "raw", "raw", "ws", "ws")
+		op.Ser = g.Intn(3)
 	}
 	if fl == seqC12 {
 		op.Scribble = g.Chance(1, 3)
@@ -221,6 +227,10 @@ func genSeqOps(g *Rand, fl seqFlavour, nslots, n int, thorough bool) []SOp {
 			op.Args = wamp.List{fmt.Sprintf("m%d", uniq)}
 			if g.Chance(1, 3) {
 				op.Kw = wamp.Dict{"k": uniq, "nested": wamp.Dict{"l": wamp.List{1, "x"}}}
+			}
+			if fl == seqC15 && g.Chance(1, 6) {
+				op.Args = append(op.Args, complex(1, 2)) // unserializable; only an in-process publisher can send it
+				op.Kw = nil
 			}
 		case "reg":
 			if fl == seqC13 && g.Chance(3, 4) {
@@ -412,6 +422,9 @@ func runSeq(c *Ctx, fl seqFlavour) {
 	if fl == seqC13 {
 		q.IgnoreMeta = true
 		mr.Lenient = true
+	}
+	if fl == seqC15 {
+		q.NetFaults = NetFaults{MaxFrag: []int{0, 1, 3, 7, 64}[g.Intn(5)], Window: []int{0, 16, 64, 700, 4096}[g.Intn(5)]}
 	}
 	if fl == seqC12 {
 		q.IgnoreMeta = true
